@@ -11,7 +11,12 @@
 //! `TerminateGuard` alive.
 //!
 //! Note that scope can get canceled even if `CancelGuard` is still alive.
-use std::sync::{Arc, Mutex};
+use std::sync::Arc;
+#[cfg(not(era_consensus_verif))]
+use std::sync::Mutex;
+
+#[cfg(era_consensus_verif)]
+use crate::verif::Mutex;
 
 use crate::{ctx, signal};
 
@@ -35,6 +40,12 @@ impl<E> State<E> {
     /// Awaits termination of the scope.
     pub(super) async fn terminated(&self) {
         self.terminated.cancel_safe_recv().await
+    }
+
+    /// Whether the scope's context is still active.
+    #[cfg(era_consensus_verif)]
+    pub(super) fn is_active(&self) -> bool {
+        self.ctx.is_active()
     }
 
     /// Takes out the error from the scope.
